@@ -117,7 +117,7 @@ func c14Values(deep bool) []namedValue {
 // c14Keys: keys of map / object members the key-taking operations are repeated with ("@k<i>" suffix of
 // the operation kind): JSON-pointer syntax, quotes and backslashes, control characters and DEL, line
 // separators, astral and the last code point, HTML-sensitive characters, BSON-sensitive characters.
-var c14Keys = []string{"a/b~c~0~1~01", `"q"\ 'x'`, "c\x00\x07\x0b\x1b\x7f", "\u2028\u2029", "\U0001F600\U0010FFFF", "<&>", "$d.o", "\t\n\r\b\f", `\u0026\n%s\`}
+var c14Keys = []string{"a/b~c~0~1~01", `"q"\ 'x'`, "c\x00\x07\x0b\x1b\x7f", "\u2028\u2029", "\U0001F600\U0010FFFF", "<&>", "$d.o", "\t\n\r\b\f", `\u0026\n%s\`, "a\xffb"}
 
 // keyed kinds: base operation kinds that take a key
 var c14KeyedValue = []string{"map.put", "doc.put"}
